@@ -268,6 +268,19 @@ pub fn op_write(args: &[Sexp]) -> String {
         Err(_) => "err".into(),
     }
 }
+/// `gds.open x<bytes>`: the same stream through a FILE — `GdsLibrary::open(path)` — must give what
+/// `from_bytes` gives (files are read through a different source type, in blocks)
+pub fn op_open(args: &[Sexp]) -> String {
+    let bytes = match args.get(0).and_then(|b| b.bytes()) { Some(b) => b, None => return "bad-op".into() };
+    let path = std::env::temp_dir().join(format!("l21h-open-{}.gds", std::process::id()));
+    if std::fs::write(&path, &bytes).is_err() { return "bad-op".into(); }
+    let r = GdsLibrary::open(&path);
+    let _ = std::fs::remove_file(&path);
+    match r {
+        Ok(lib) => format!("ok {}", lib_s(&lib)),
+        Err(_) => "err".into(),
+    }
+}
 pub fn op_read(args: &[Sexp]) -> String {
     let bytes = match args.get(0).and_then(|b| b.bytes()) {
         Some(b) => b,
